@@ -27,3 +27,11 @@ claim("C11",
       "String-like and typed arrays with every content byte symbolic (ill-formed UTF-8 included), every chunking into <= 2 chunks (zero-length included) and every split of a chunk's bytes into <= 2 data events, through the real rules validator; z3 shows accepted <=> every chunk is valid UTF-8 on its own, and typed arrays are accepted for every split; count mismatches and non-final last chunks are rejected.",
       "Oracle: unicode/utf8.Valid per chunk (executed symbolically). Bounds: content <= 4 bytes quick / 5 thorough; media type and remote reference go through the same string rule and are not generated separately.",
       "DESIGN.md §5 C11")
+claim("C13",
+      "Every document of bounded length over {Marker, Reference, scalars, list, map, end} with symbolic identifiers is run through the real validator and through a reference model (structure automaton + marker table + pending forward references); z3 shows accepted <=> well-formed and marker-consistent. A second entry decides the identifier rule for symbolic identifier bytes and a symbolic MaxIdentifierLength.",
+      "Reference model = harness/lib/refmodel.go, from the statement (the 'valid document is accepted' direction is taken from C10's 'accepts exactly'). Outside: reference replacement in built objects (builders), non-ASCII identifiers, maps mixing a reference key with other keys, markers on arrays/edges/nodes/records.",
+      "DESIGN.md §5 C13")
+claim("C15",
+      "Each event kind with a fully symbolic payload is sent through the real rules validator inside a valid document; z3 shows the next receiver gets exactly that event (same method, arguments, order), except the documented rewrites (nil big numbers -> null, NaN -> NaN event of the same kind).",
+      "Bounds: one symbolic event per document position (list element), arrays/strings <= 3 bytes, big.Int <= 2 words; *big.Float/*apd.Decimal compared by pointer identity.",
+      "DESIGN.md §5 C15")
